@@ -16,8 +16,26 @@ if 'naming_chain' in cfg:
         names.append(w.name)
     out['names'] = names
     out['distinct'] = all(a != b for a, b in zip(names, names[1:]))
+elif cfg.get('kind') == 'mass_below':
+    from TidalPy.constants import G
+    w = build_world(cfg.get('world', 'earth_simple'))
+    rows, bad = [], []
+    below = 0.0
+    for l in w.layers:
+        rows.append([l.name, float(l.mass_below), float(below)])
+        if abs(l.mass_below - below) > 1e-9 * (abs(below) + 1.0):
+            bad.append(l.name)
+        below += l.mass
+    top = list(w.layers)[-1]
+    out['rows'], out['g_top'], out['g_want'] = rows, float(top.gravity_outer), float(G * below / top.radius ** 2)
+    if abs(out['g_top'] - out['g_want']) > 1e-9 * out['g_want']:
+        bad.append('surface gravity')
+    out['bad'] = bad
 elif 'scale' in cfg:
     w = build_world('io_simple')
+    if cfg.get('twice'):
+        # a previously scaled world (its configuration carries thickness / radius_inner) is the source of the scaling under test
+        w = scale_from_world(w, radius_scale=1.25)
     snap = copy.deepcopy(w.config)
     w2 = scale_from_world(w, radius_scale=cfg['scale'])
     s = cfg['scale']
